@@ -409,7 +409,7 @@ def e_coord(g, par, p):
         return None
     rind = rind_of(gc)
     ci = g.call("coord", par, name, arrs=[(dt, dims, data)], plan=p,
-                slab=slab_spec(g.rng, dims, [1 - rind[2 * j] for j in range(len(dims))]))
+                slab=p.kw["slab"] if "slab" in p.kw else slab_spec(g.rng, dims, [1 - rind[2 * j] for j in range(len(dims))]))
     n = Node("DataArray_t", name, p_arr(dt, dims, data), gc)
     g.expect_index(ci, n)
     return n
@@ -498,7 +498,7 @@ def e_field(g, par, p):
     data = rand_elems(g.rng, dt, prod(dims))
     rind = rind_of(par) if not getattr(par, "patch", None) else [0, 0]
     ci = g.call("field", par, p.kw["name"], arrs=[(dt, dims, data)], plan=p,
-                slab=slab_spec(g.rng, dims, [1 - rind[2 * j] for j in range(len(dims))]))
+                slab=p.kw["slab"] if "slab" in p.kw else slab_spec(g.rng, dims, [1 - rind[2 * j] for j in range(len(dims))]))
     n = Node("DataArray_t", p.kw["name"], p_arr(dt, dims, data), par)
     g.expect_index(ci, n)
     return n
@@ -641,6 +641,8 @@ def e_conn(g, par, p):
     dzt = dz[1]
     ddim = c["cell"] if dzt == 2 else 1
     ndonor = rng.choice([0, patch, patch]) if cty == 4 else rng.choice([0, rng.randint(1, 5)])
+    if p.kw.get("ndonor"):
+        cty, ndonor = 2, p.kw["ndonor"]
     dptype = rng.choice([3, 8]) if dzt == 3 else 3
     dpts = [rng.randint(1, 50) for _ in range(ndonor * ddim)]
     ci = g.call("conn", par, p.kw["name"], [loc, cty, ptype, npnts, dptype, dzt, ndonor] + pts + dpts, [dz[0]], plan=p)
@@ -1300,6 +1302,7 @@ class Planner:
     def __init__(self, rng, names, big, avoid=()):
         self.rng, self.names, self.big = rng, names, big
         self.avoid = frozenset(avoid)           # keys of reported defects that still fail: their triggers stay out of the random files
+        self.bases_done = []                    # (base name, zones) of the bases planned so far: donors of cross-base connectivities
 
     def nm(self, stem):
         return self.names.name(stem)
@@ -1384,6 +1387,7 @@ class Planner:
             z = Plan("zone", e_zone, name=zn, zt=zt, sizes=sizes)
             self.zone(z, zt, cell, zones)
             b.kids.append(z)
+        self.bases_done.append((b.kw["name"], zones))
         has_biter = rng.random() < 0.5
         if has_biter:
             ns = rng.randint(1, 4)
@@ -1706,7 +1710,13 @@ class Planner:
                 made.append(o)
         for _ in range(rng.choice([0, 1, 2])):
             d = rng.choice(zones)
-            c = Plan("conn", e_conn, name=self.nm("Conn"), donor=(d[0], d[1]))
+            donor = (d[0], d[1])
+            fits = [(ob, od) for ob, ozs in self.bases_done for od in ozs if len(ob) + 1 + len(od[0]) <= 32]   # cgi_check_strlen
+            if fits and rng.random() < 0.6:                      # a donor zone of another base, named BaseName/ZoneName
+                ob, od = rng.choice(fits)
+                if "conn-donor-in-other-base-unreadable" not in self.avoid:
+                    donor = (ob + b"/" + od[0], od[1])
+            c = Plan("conn", e_conn, name=self.nm("Conn"), donor=donor)
             c.kids += self.ctx_plans("GridConnectivity_t") + self.cprops()
             made.append(c)
         for _ in range(rng.choice([0, 1])):
@@ -1738,7 +1748,8 @@ def c_after(c):
 # the defect no longer fails
 OPT_OF_DEFECT = [("multifam-under-family-not-read-back", "multifam"),
                  ("particle-zone-multifam-not-countable", "pzone_multifam"),
-                 ("particle-zone-integrals-not-countable", "pzone_integrals")]
+                 ("particle-zone-integrals-not-countable", "pzone_integrals"),
+                 ("slab-write-index-not-returned", "slab_index")]
 
 
 def gen_scenario(rng, big, removed=(), avoid_complex=True, avoid=()):
@@ -1977,6 +1988,19 @@ def witness_plans():
                 chain(base(), Plan("particle_equationset", e_peqset)), []))
     def pzone():
         return Plan("particle", e_particle, name=b"PZone", n=3)
+    out.append(("conn-donor-in-other-base-unreadable",
+                "cg_conn_write accepts a donor zone of another base given as BaseName/ZoneName and cg_conn_info resolves such a "
+                "name, but cg_conn_read looks the donor up by plain name among the zones of base B only: the donor points that "
+                "were written cannot be read ('donor zone B1/ZoneB does not exist')",
+                [chain(Plan("base", e_base, name=b"B1", cell=3, phys=3), Plan("zone", e_zone, name=b"ZoneB", zt=3, sizes=[8, 1, 0])),
+                 chain(Plan("base", e_base, name=b"B2", cell=3, phys=3), Plan("zone", e_zone, name=b"ZoneA", zt=3, sizes=[8, 1, 0]),
+                       Plan("conn", e_conn, name=b"Conn", donor=(b"B1/ZoneB", 3), ndonor=2))], []))
+    out.append(("slab-write-index-not-returned",
+                "cg_coord_partial_write / cg_coord_general_write / cg_field_partial_write / cg_field_general_write (and the particle "
+                "variants) return the index of the array only from the call that CREATES it: cgi_array_general_write sets *A in "
+                "the append branch only, so every further slab written into the same array leaves the caller's C / F output "
+                "variable untouched -- the returned index does not designate the entity just written",
+                chain(base(), uzone(), Plan("coord", e_coord, name=b"CoordinateX", dt="R8", slab="0:4:0,1:1:p")), ["opt slab_index 1"]))
     out.append(("ptset-solution-location-unreadable",
                 "cg_sol_ptset_write / cg_discrete_ptset_write accept every location cgi_check_location allows (FaceCenter in a 3-D "
                 "base, EdgeCenter in a 2-D / 3-D base); cgi_read_sol / cgi_read_discrete call cgi_datasize for the location before "
@@ -2004,7 +2028,7 @@ def run_witnesses(ck, exe, work):
             g = Gen(random.Random(7), False)
             g.avoid_complex = False
             g.opts = list(extra)
-            g.schedule([top])
+            g.schedule(top if isinstance(top, list) else [top])
             fname = "c01_w_%s_%s.cgns" % (key[:20], cf)
             script = impl_script(g, cf, fname)
             il, outcome = vlib.run_impl(exe, script, cwd=work, timeout=120)
